@@ -1269,7 +1269,7 @@ def _threaded_counter(ck, counter, via, reader):
     ok = is_param and ret_ok and rd is not None
     detail = ""
     if ok:
-        rk = SI.Checker("C14", ck.rel, reader, ck.mod.repo)
+        rk = SI.Checker("C14", ck.rel, reader, ck.mod.repo, inline=False)
         z = rk.starts_at_zero_once(counter)
         ok = z is not None and not isinstance(z, bool) and rk.obls == []
         detail = "; ".join(o["reason"] for o in rk.obls)
@@ -1392,7 +1392,7 @@ def _odp(ck, repo):
     is_param = any(a.arg == counter for a in ck.fn.args.args)
     returns = [n for n in ast.walk(ck.fn) if isinstance(n, ast.Return)]
     ret_ok = bool(returns) and all(isinstance(r.value, ast.Tuple) and any(isinstance(e, ast.Name) and e.id == counter for e in r.value.elts) for r in returns)
-    rk = SI.Checker("C14", ck.rel, "read_odp", repo)
+    rk = SI.Checker("C14", ck.rel, "read_odp", repo, inline=False)
     ok = is_param and ret_ok and rk.fn is not None
     cname = None
     if ok:
